@@ -32,9 +32,9 @@ func init() {
 // c12Env: the synced mark of a peer and the functions that write it.
 type c12Env struct {
 	c        *Ctx
-	fld      *types.Var          // the Peer field behind Synced()
-	synced   *types.Func         // (*Peer).Synced
-	doneVal  constant.Value      // for a mark that is not a bool: Synced() reports fld == doneVal (doneEq) or fld != doneVal
+	fld      *types.Var     // the Peer field behind Synced()
+	synced   *types.Func    // (*Peer).Synced
+	doneVal  constant.Value // for a mark that is not a bool: Synced() reports fld == doneVal (doneEq) or fld != doneVal
 	doneEq   bool
 	setters  map[*types.Func]int // function writing the mark from its bool parameter → parameter index
 	unsyncFn map[*types.Func]bool
